@@ -183,3 +183,150 @@ Example C05_ex_early_removal : run 0 (mkkind false false)
     [mkfeed [1;2] [0] [] true; mkfeed [3;4] [] [mkreq 0 2 2 7] true] =
   [FOut [] true; FOut [{| i_key := 0; i_rid := 7; i_s0 := 2; i_data := [3;4]; i_missed := false |}] false].
 Proof. vm_compute. reflexivity. Qed.
+
+(* ================================================================================================ *)
+(* The coverage-audit additions of Extract/Model.v: capture_epoch stand-alone (capture_run), extract_epochs
+   without the all-done callback (xinit_nocb), and the input kind.  Vocabulary: Extract/SpecX.v.
+   tag s0 cs             : the chunks cs sent as (s0, c0), (s0+|c0|, c1), ... - a contiguous stream from sample s0
+   cap_spec T e d cs     : CNone for every chunk until the one that brings the stream up to sample e, then [CData d]
+   run_nocb B k fs       : Model.run started from xinit_nocb (empty_queue_cb=None)
+   silence o             : the send o with the callback output taken away; mute: the same on (state, output) pairs *)
+From PV Require Import Extract.SpecX Extract.ProofsXCapture Extract.ProofsXNocb Extract.ProofsXKind.
+From Coq Require Import ZArith List.
+Import ListNotations.
+Open Scope Z_scope.
+
+(* capture_epoch(lo, n) fed with ANY chunking cs (empty chunks included) of a contiguous stream that starts at
+   s0 <= lo: nothing until the chunk that contains sample lo+n-1 (for n = 0: that reaches sample lo), then exactly
+   stream[lo, lo+n) - a function of the concatenated stream only - and the coroutine is finished. *)
+Theorem C05_capture_standalone : forall k rid lo n s0 cs, 0 <= n -> s0 <= lo ->
+  capture_run (new_capture (mkreq k lo n rid)) (tag s0 cs) =
+  cap_spec s0 (lo + n) (sl (concat cs) (lo - s0) n) cs.
+Proof. exact capture_standalone. Qed.
+Print Assumptions C05_capture_standalone.
+
+(* The same, spelled out: while the stream is short of sample lo+n every send shows nothing; once it reaches it, the
+   capture has shown nothing j times and then the n samples stream[lo, lo+n), where chunk #j is the first one with
+   which the stream reaches sample lo+n. *)
+Theorem C05_capture_any_chunking : forall k rid lo n s0 cs, 0 <= n -> s0 <= lo ->
+  let out := capture_run (new_capture (mkreq k lo n rid)) (tag s0 cs) in
+  let d := sl (concat cs) (lo - s0) n in
+  (s0 + zlen (concat cs) < lo + n -> out = repeat CNone (length cs)) /\
+  (lo + n <= s0 + zlen (concat cs) -> cs <> [] ->
+   exists j, (j < length cs)%nat /\ out = repeat CNone j ++ [CData d] /\ zlen d = n /\
+             lo + n <= s0 + zlen (concat (firstn (S j) cs)) /\
+             (forall i, (i < j)%nat -> s0 + zlen (concat (firstn (S i) cs)) < lo + n)).
+Proof. exact capture_any_chunking. Qed.
+Print Assumptions C05_capture_any_chunking.
+
+(* Two chunkings of the same stream deliver the same epoch. *)
+Theorem C05_capture_chunking_independent : forall k rid lo n s0 cs1 cs2, 0 <= n -> s0 <= lo ->
+  concat cs1 = concat cs2 -> lo + n <= s0 + zlen (concat cs1) -> cs1 <> [] -> cs2 <> [] ->
+  exists j1 j2,
+    capture_run (new_capture (mkreq k lo n rid)) (tag s0 cs1) = repeat CNone j1 ++ [CData (sl (concat cs1) (lo - s0) n)] /\
+    capture_run (new_capture (mkreq k lo n rid)) (tag s0 cs2) = repeat CNone j2 ++ [CData (sl (concat cs1) (lo - s0) n)].
+Proof. exact capture_chunking_independent. Qed.
+Print Assumptions C05_capture_chunking_independent.
+
+(* "Missed" is reported exactly when there is a first chunk and it starts after lo - and then at that first send. *)
+Theorem C05_capture_missed : forall k rid lo n s0 cs, 0 <= n ->
+  (In CMiss (capture_run (new_capture (mkreq k lo n rid)) (tag s0 cs)) <-> cs <> [] /\ lo < s0) /\
+  (forall c t, cs = c :: t -> lo < s0 -> capture_run (new_capture (mkreq k lo n rid)) (tag s0 cs) = [CMiss]).
+Proof.
+  exact (fun k rid lo n s0 cs Hn => conj (capture_missed_iff k rid lo n s0 cs Hn)
+           (fun c t E Hlt => eq_ind_r (fun cs0 => capture_run _ (tag s0 cs0) = [CMiss]) (capture_missed k rid lo n s0 c t Hlt) E)).
+Qed.
+Print Assumptions C05_capture_missed.
+
+(* The harness predicate check_capture accepts exactly that observation. *)
+Theorem C05_check_capture_spec : forall lo n s0 cs got, 0 <= n -> s0 <= lo ->
+  check_capture lo n (tag s0 cs) got = true <-> got = cap_spec s0 (lo + n) (sl (concat cs) (lo - s0) n) cs.
+Proof. exact check_capture_spec. Qed.
+Print Assumptions C05_check_capture_spec.
+
+(* empty_queue_cb=None, for every schedule whatsoever: the run is a simulation of the run with the callback - state
+   by state (same tlb, pending captures and look-back chunks, `armed` down) and send by send (same batch or same
+   error, callback output removed): the callback is observation only. *)
+Theorem C05_nocb : forall B k fs,
+  trace B k xinit_nocb fs = map mute (trace B k xinit fs) /\
+  run_nocb B k fs = map silence (run B k fs).
+Proof. exact nocb_simulation. Qed.
+Print Assumptions C05_nocb.
+
+(* ... it never fires, on any schedule ... *)
+Theorem C05_nocb_never_fires : forall B k fs,
+  Forall (fun o => fired o = false) (run_nocb B k fs) /\ fire_count (run_nocb B k fs) = 0 /\
+  Forall (fun p => armed (fst p) = false) (trace B k xinit_nocb fs).
+Proof. exact nocb_never_fires. Qed.
+Print Assumptions C05_nocb_never_fires.
+
+(* ... and everything else is identical, send by send. *)
+Theorem C05_nocb_same_epochs : forall B k fs,
+  length (run_nocb B k fs) = length (run B k fs) /\
+  map batch_of (run_nocb B k fs) = map batch_of (run B k fs) /\
+  map is_err (run_nocb B k fs) = map is_err (run B k fs) /\
+  delivered (run_nocb B k fs) = delivered (run B k fs) /\
+  (forall j o, nth_error (run B k fs) j = Some o -> nth_error (run_nocb B k fs) j = Some (silence o)).
+Proof. exact nocb_same_epochs. Qed.
+Print Assumptions C05_nocb_same_epochs.
+
+(* So the property holds without the callback as well: exactly once, exactly the samples, removals respected. *)
+Theorem C05_nocb_exact_once : forall B k fs a r,
+  wf_sched B fs = true -> arrives fs a r ->
+  (forall j, removed_at fs j (r_key r) -> (a < j)%nat /\ r_lo r + r_n r <= seen fs j) ->
+  r_lo r + r_n r <= zlen (stream_of fs) ->
+  Forall (fun o => is_err o = false) (run_nocb B k fs) /\
+  count_key (r_key r) (delivered (run_nocb B k fs)) = 1 /\
+  In (s_item (stream_of fs) r) (delivered (run_nocb B k fs)) /\
+  (forall it, In it (delivered (run_nocb B k fs)) -> i_key it = r_key r -> it = s_item (stream_of fs) r).
+Proof. exact nocb_exact_once. Qed.
+Print Assumptions C05_nocb_exact_once.
+
+Theorem C05_nocb_removed_never : forall B k fs a j r,
+  wf_sched B fs = true -> arrives fs a r -> removed_at fs j (r_key r) ->
+  ((j <= a)%nat \/ seen fs j < r_lo r + r_n r) ->
+  count_key (r_key r) (delivered (run_nocb B k fs)) = 0.
+Proof. exact nocb_removed_never. Qed.
+Print Assumptions C05_nocb_removed_never.
+
+(* The input kind (1-D / multichannel, plain / annotated): every theorem above holds for every kind k.  Moreover the
+   kind is irrelevant for states, batches, errors and callback - on EVERY schedule, well-formed or not - as soon as
+   every epoch has at least one sample. *)
+Theorem C05_kind_irrelevant : forall B k1 k2 fs, Forall (fun r => 1 <= r_n r) (all_reqs fs) ->
+  trace B k1 xinit fs = trace B k2 xinit fs /\ run B k1 fs = run B k2 fs /\
+  trace B k1 xinit_nocb fs = trace B k2 xinit_nocb fs.
+Proof. exact kind_irrelevant. Qed.
+Print Assumptions C05_kind_irrelevant.
+
+(* With zero-length epochs (epoch_size = 0, which the code accepts) it is not: a zero-length epoch and the "missed"
+   stub of a request beyond the look-back completing in the same send are stacked for 1-D input but raise for
+   two-channel input.  (Outside wf_sched: the missed request violates the look-back precondition.) *)
+Theorem C05_kind_irrelevant_refuted : exists B k1 k2 fs,
+  Forall (fun r => 0 <= r_n r) (all_reqs fs) /\ nodupz (req_keys fs) = true /\ run B k1 fs <> run B k2 fs.
+Proof. exact kind_irrelevant_refuted. Qed.
+Print Assumptions C05_kind_irrelevant_refuted.
+
+(* What the target observes (Model.observe) at every send of a well-formed schedule, for some requests rs of the
+   schedule: one row stream[lo, lo+n) per request; for annotated input (annot k) the start sample of the first epoch
+   and every request's OWN metadata identity, none flagged as a metadata-only stub; for plain input no annotation. *)
+Theorem C05_observed_metadata : forall B k fs, wf_sched B fs = true ->
+  forall o, In o (run B k fs) ->
+  exists rs, Forall (fun r => exists a, arrives fs a r) rs /\
+             o = FOut (map (s_item (stream_of fs)) rs) (fired o) /\
+             observe k o = obs_of_reqs k (stream_of fs) rs (fired o).
+Proof. exact observed_metadata. Qed.
+Print Assumptions C05_observed_metadata.
+
+(* The hypotheses are satisfiable. *)
+Example C05_ex_capture :
+  capture_run (new_capture (mkreq 0 4 5 0)) (tag 2 [[12;13;14]; []; [15]; [16;17;18;19]; [20;21]]) =
+  [CNone; CNone; CNone; CData [14;15;16;17;18]] /\
+  capture_run (new_capture (mkreq 0 4 5 0)) (tag 5 [[15;16]; [17]]) = [CMiss].
+Proof. exact capture_ex. Qed.
+Example C05_ex_nocb : wf_sched 3 ex_sched = true /\ Forall (fun r => 1 <= r_n r) (all_reqs ex_sched) /\
+  run_nocb 3 (mkkind true true) ex_sched = map silence (run 3 (mkkind true false) ex_sched) /\
+  fire_count (run 3 (mkkind true false) ex_sched) = 1.
+Proof.
+  split; [vm_compute; reflexivity|]. split; [repeat (constructor; [vm_compute; discriminate|]); constructor|].
+  split; vm_compute; reflexivity.
+Qed.
